@@ -155,7 +155,8 @@ def regular_case(draw):
     T = min(draw(st.sampled_from([1.0, 3.0, 10.0])), 3.0 / (tau * d))
     return {'entry': 'x', 'gc': gc, 'mode': 'rho', 'tau': tau, 'gamma': draw(st.one_of(st.sampled_from([0.5, 1.0]), st.floats(0.1, 3.0, allow_nan=False))),
             'rho': draw(st.sampled_from([0.01, 0.05, 0.1, 0.25, 0.5, 0.6])), 'p': 0.5, 'tmin': 0, 'tmax': T, 'tcount': 21, 'shift': draw(st.sampled_from([0, 0, -1.5, 2.0, 3.25])),
-            'dtmin': 0, 'dtmax': 3, 'I0': [], 'R0': [], 'model': draw(st.sampled_from(['SIS', 'SIR'])), 'd': d}
+            'dtmin': 0, 'dtmax': 3, 'I0': [], 'R0': [], 'model': draw(st.sampled_from(['SIS', 'SIR'])), 'd': d,
+            'nodelist_perm': (list(draw(st.permutations(list(range(len(gc['nodes'])))))) if draw(st.booleans()) else None)}
 
 
 def prop_regular(case):
